@@ -13,7 +13,7 @@ from ..build import AnalysisBroken
 from ..lib_c10 import (PPInterp, Toks, register_nested_enums, explore_directive, outcome, calls, is_resync,
                        idx_of, truth_in, settle, m_equal, m_strndup, hook, cut_tok, resync, set_out,
                        string_lits_compared, RESUME, directive_scenario, pp2_config, spelled_from, TABLE_LOOKUPS, h_find_macro,
-                       h_table_lookup)
+                       h_table_lookup, key_base, file_key_functions)
 
 U = 'preprocess.c'
 OPENERS = ('if', 'ifdef', 'ifndef')
@@ -26,7 +26,7 @@ LINE_PASSERS = ('skip_cond_incl', 'include_file')
 
 
 # minimum number of distinct obligations per rule, confirmed by hand on the pinned tree (below: exit 2)
-FLOORS = {'R10.1': 15, 'R10.2': 130, 'R10.3': 14, 'R10.4': 40, 'R10.5': 10, 'R10.6': 47, 'R10.7': 3, 'R10.8': 15, 'R10.10': 12, 'R10.11': 9, 'R10.12': 55, 'R10.13': 9}
+FLOORS = {'R10.1': 15, 'R10.2': 130, 'R10.3': 14, 'R10.4': 40, 'R10.5': 10, 'R10.6': 47, 'R10.7': 8, 'R10.8': 17, 'R10.10': 12, 'R10.11': 9, 'R10.12': 55, 'R10.13': 9}
 
 
 def _declare_rules(rep):
@@ -103,7 +103,7 @@ def _plain_tok(label):
     return Obj('Token', lazy=True, label=label)
 
 
-def _walk_next(it, first, last, limit=8):
+def _walk_next(it, first, last, limit=80):
     """tokens from first (inclusive) to last (exclusive) along ->next as materialised on the path; None if
     last is not reached"""
     out = []
@@ -194,6 +194,36 @@ def r101(P, u, T, rep):
         _check_eol_scan(it, ctx, rep, 'R10.1', fn, ctx.first, out[1], where, seen)
     if seen['paths'] == 0:
         rep.undecided('R10.1', '%s:%s:no-returning-path' % (U, fn), 'skip_line has no returning path the analysis can follow')
+    # the end marker of a copied line (copy_line -> new_eof: a TK_EOF that is a copy of the last token of the line, hence not at_bol) ends the line: there is
+    # nothing to skip and nothing to diagnose (`#include H` with H a macro re-reads the expanded copy of the line; after the file name comes that marker)
+    E = u.enums
+
+    def mk_end(ctx):
+        t = _plain_tok('end-marker')
+        t.fields['kind'] = E['TK_EOF']
+        t.fields['at_bol'] = 0
+        ctx.first = t
+        return [t]
+    verd = set()
+    for ctx, out in it.explore(fn, mk_end, max_paths=50):
+        if out[0] != 'ret':
+            verd.add('rejected')
+        elif settle(it, out[1]) is not ctx.first:
+            verd.add('passed')
+        elif [e for e in ctx.events if e[0] == 'call' and e[1] in ('warn_tok', 'error_tok', 'error_at', 'error')]:
+            verd.add('diagnosed')
+        else:
+            verd.add('ok')
+    if not verd:
+        rep.undecided('R10.1', '%s:%s:end-marker' % (U, fn), 'skip_line could not be followed on the end marker of a token list')
+    elif 'passed' in verd:
+        pass        # reported above (skips-past-line-start / result-not-on-the-list)
+    else:
+        okm = verd == {'ok'}
+        rep.ob('R10.1', '%s:%s:%s' % (U, fn, 'end-marker-is-no-extra-token' if okm else 'end-marker-diagnosed-as-extra-token'), okm,
+               'skip_line given the TK_EOF that ends a copied line (not at_bol: new_eof copies the last token of the line) %s: a directive whose operands were '
+               'macro-expanded from a copy of its line (`#define H "h.h"` / `#include H`) gets a spurious "extra token" diagnostic although nothing follows the file name' % (
+                   'reports it as an extra token' if 'diagnosed' in verd else 'rejects it'), where=where)
     # a skipper that never skips is caught above (returns-mid-line-token); one whose loop the analysis cannot enter is undecided
     # copy_line
     it2 = PPInterp(P, u, {'opaque': ['copy_token', 'new_eof'], 'loop_limit': 3})
@@ -1190,10 +1220,10 @@ def r103(P, u, T, rep):
                 live[id(e)] = truth_in(it, ctx, e[4])
             just = None
             for e in gets:
-                if live[id(e)] and e[5] in once_tables and len(e[2]) > 1 and e[2][1] is ctx.a_path:
+                if live[id(e)] and e[5] in once_tables and len(e[2]) > 1 and key_base(e[2][1])[1] is ctx.a_path:
                     just = 'pragma-once'
             for e in gets:
-                if not live[id(e)] or len(e[2]) < 2 or e[2][1] is not ctx.a_path or e[5] in once_tables or e[5] == macros:
+                if not live[id(e)] or len(e[2]) < 2 or key_base(e[2][1])[1] is not ctx.a_path or e[5] in once_tables or e[5] == macros:
                     continue
                 g = settle(it, e[4])
                 for e2 in gets:
@@ -1232,10 +1262,11 @@ def r103(P, u, T, rep):
                'the include-guard recogniser is not run exactly once on the tokens of the file just read', where=where, facts={'path': ctx.trail})
         if ok_det:
             gname = truth_in(it, ctx, det[0][4])
-            lookup_tables = [e[5] for e in gets if e[5] not in once_tables and e[5] != macros and len(e[2]) > 1 and e[2][1] is ctx.a_path]
+            # table -> key it is looked up with: the path, or the file key computed from the path
+            lookup_tables = {e[5]: e[2][1] for e in gets if e[5] not in once_tables and e[5] != macros and len(e[2]) > 1 and key_base(e[2][1])[1] is ctx.a_path}
             if gname:
                 g = settle(it, det[0][4])
-                ok_put = len(puts) == 1 and len(puts[0][2]) >= 3 and puts[0][2][1] is ctx.a_path and settle(it, puts[0][2][2]) is g and puts[0][5] in lookup_tables
+                ok_put = len(puts) == 1 and len(puts[0][2]) >= 3 and settle(it, puts[0][2][2]) is g and puts[0][5] in lookup_tables and puts[0][2][1] is lookup_tables[puts[0][5]]
                 rep.ob('R10.3', '%s:%s:memoises-guard-under-lookup-key' % (U, fn), ok_put,
                        'the recognised guard macro is not recorded in the table and under the path that the shortcut later looks up', where=where, facts={'path': ctx.trail})
             else:
@@ -1973,23 +2004,169 @@ def r107_per_file(P, u, T, rep):
                                   'tokenize_file': h_tokfile, 'detect_include_guard': None, 'append': None, 'strerror': None, '__errno_location': None},
                           'globals': gl3, 'lazy_field': hook, 'loop_limit': 2})
     rec = set()
+    gsrc = {}
     for ctx, out in it3.explore(fn3, lambda ctx: list(a3), max_paths=200):
         if out[0] != 'ret' or not hasattr(ctx, 'newfile'):
             continue
         v = ctx.newfile.fields.get(field)
         v = settle(it3, v)
         if v is None:
-            rec.add('unset')
-        elif any(v is a for a in a3) or any(v is sy for sy in gsyms.values()):
-            rec.add('set')
+            rec.add(('unset', None))
+        elif any(v is a for a in a3):
+            rec.add(('param', [k for k, a in enumerate(a3) if v is a][0]))
+        elif any(v is sy for sy in gsyms.values()):
+            rec.add(('global', [g for g, sy in gsyms.items() if v is sy][0]))
+        elif isinstance(v, int) and not isinstance(v, bool):
+            rec.add(('const', v))
         else:
-            rec.add('?%r' % (v,))
-    if not rec or any(x.startswith('?') for x in rec):
-        rep.undecided('R10.7', '%s:%s:records-%s' % (U, fn3, field), 'what include_file stores in File.%s of the included file could not be followed: %s' % (field, sorted(rec)), where=where3)
+            rec.add(('?', repr(v)))
+    if not rec or any(x[0] == '?' for x in rec):
+        rep.undecided('R10.7', '%s:%s:records-%s' % (U, fn3, field), 'what include_file stores in File.%s of the included file could not be followed: %s' % (field, sorted(rec, key=repr)), where=where3)
         return
-    ok3 = rec == {'set'}
+    ok3 = all(x[0] in ('param', 'global') for x in rec)
+    const = sorted(x[1] for x in rec if x[0] == 'const')
     rep.ob('R10.7', '%s:%s:%s-%s' % (U, fn3, 'records' if ok3 else 'does-not-record', field), ok3,
-           'include_file hands back the tokens of a freshly read file without storing the search position in File.%s, which `#include_next` in that file starts from' % field, where=where3)
+           'include_file hands back the tokens of a freshly read file %s File.%s, which `#include_next` in that file starts from' % (
+               'with the constant %s in' % const[0] if const else 'without storing the search position in', field), where=where3)
+    if not ok3:
+        return
+    if len(rec) != 1:
+        rep.undecided('R10.7', '%s:preprocess2:include-arms/recorded-cursor' % U, 'include_file stores different things in File.%s on different paths (%s)' % (field, sorted(rec, key=repr)), where=where3)
+        return
+    G = which if kind == 'global' else ('include_next_idx' if 'include_next_idx' in u.globals else None)
+    rep._c10_cursor = {'field': field, 'global': G}
+    _r107_call_sites(P, u, T, rep, field, next(iter(rec)), G, p3)
+
+
+def _r107_call_sites(P, u, T, rep, field, source, G, p3):
+    """(4) what does include_file record for each of its call sites?  include_file stores `source` (one of its parameters, or a global as it stands at the moment
+    of the call) in the File of the included tokens.  Expected (gcc, cpp manual "Wrapper Headers"): a file found by searching the include path resumes behind the
+    directory that search found it in, i.e. at the cursor that very search left (that the cursor is i + 1: _r107_cursor); a file that was not found through the
+    include path (a quoted #include found next to the including file) has no such directory: its #include_next searches the whole path, from directory 0.  The
+    dispatcher is run on `#include M` / `#include_next M` with the global cursor holding an unrelated earlier value; each search, when it is called, replaces it
+    by a value of its own."""
+    kind, which = source
+    stale = {}
+    cfg = pp2_config(u)
+    cfg['globals'] = dict(cfg['globals'])
+    for g in set(x for x in (G, which if kind == 'global' else None) if x):
+        stale[g] = Sym('cursor-left-by-an-earlier-lookup:' + g, 'int')
+        cfg['globals'][g] = stale[g]
+    cfg['cut'] = dict(cfg['cut'])
+
+    def h_search(name):
+        def h(it2, ctx, n, args):
+            t = n.dtype or n.type
+            r = it2.lazy_value(t, ctx.fresh(name))
+            ctx.emit('call', name, args, n.line, r)
+            ev = ctx.events[-1]
+            if G is not None:
+                c = Sym(ctx.fresh('cursor-after-' + name), 'int')
+                ctx.globals[G] = c
+                if not hasattr(ctx, 'cursors'):
+                    ctx.cursors = []
+                ctx.cursors.append((ev, c))
+            return r
+        return h
+    inner = cut_tok('include_file')
+
+    def h_inc(it2, ctx, n, args):
+        if not hasattr(ctx, 'inc_sites'):
+            ctx.inc_sites = []
+        if kind == 'param':
+            v = args[which] if which < len(args) else None
+            given = len(args) > which
+        else:
+            v = it2.read_global(which)
+            given = True
+        ctx.inc_sites.append((v, given, len(ctx.events), n.line))
+        return inner(it2, ctx, n, args)
+    cfg['cut']['search_include_paths'] = h_search('search_include_paths')
+    cfg['cut']['search_include_next'] = h_search('search_include_next')
+    cfg['cut']['include_file'] = h_inc
+    what = ('its parameter `%s`' % p3[which].name) if kind == 'param' and which < len(p3) else 'the global `%s` as it stands when include_file is called' % which
+    SIT = {('include', 'local'): ('include/file-next-to-includer', 'a quoted #include found in the directory of the including file'),
+           ('include', 'searched'): ('include/file-from-include-path', 'an #include found by search_include_paths'),
+           ('include_next', 'searched'): ('include_next/file-from-include-path', 'an #include_next found by search_include_next')}
+    verdicts = {}
+    lines = {}
+    for d in ('include', 'include_next'):
+        it2 = PPInterp(P, u, cfg)
+        for ctx, out in it2.explore('preprocess2', directive_scenario(T, d), max_paths=400):
+            sites = getattr(ctx, 'inc_sites', [])
+            if not sites:
+                continue
+            if len(sites) != 1:
+                verdicts.setdefault((d, 'searched'), set()).add(('?', 'include_file is called %d times for one directive' % len(sites)))
+                continue
+            v, given, at, ln = sites[0]
+            v = settle(it2, v)
+            before = [e for e in ctx.events[:at] if e[0] == 'call' and e[1] in ('search_include_paths', 'search_include_next')]
+            if before:
+                found = truth_in(it2, ctx, before[-1][4])
+                if found is not True:
+                    continue        # not found: the name is handed on as given for the diagnostic
+                sit = (d, 'searched')
+                want = [c for e, c in getattr(ctx, 'cursors', []) if e is before[-1]]
+                want = want[0] if want else None
+            else:
+                probes = [e for e in calls(ctx, 'file_exists') if ctx.events.index(e) < at]
+                if not probes or truth_in(it2, ctx, probes[-1][4]) is not True:
+                    verdicts.setdefault((d, 'local'), set()).add(('?', 'include_file is reached without a search of the include path and without a successful probe'))
+                    continue
+                sit = (d, 'local')
+                want = 0
+            lines[sit] = ln
+            vs = verdicts.setdefault(sit, set())
+            if not given:
+                vs.add(('?', 'the call does not pass the parameter'))
+            elif any(v is s for s in stale.values()):
+                vs.add(('stale', None))
+            elif want is None:
+                vs.add(('?', 'the cursor the search leaves is not a global the analysis knows'))
+            elif (isinstance(want, int) and isinstance(v, int) and not isinstance(v, bool) and v == want) or v is want or (not isinstance(want, int) and _lin_diff(v, want) == 0):
+                vs.add(('ok', None))
+            elif isinstance(v, int) and not isinstance(v, bool):
+                vs.add(('const', v))
+            elif any(v is c for e, c in getattr(ctx, 'cursors', [])):
+                vs.add(('other-search', None))
+            elif sit[1] == 'searched' and isinstance(v, Sym) and v.name.endswith('.file.' + field) and v.name.split('.file.')[0] in ('a0:#', 'a1:' + d, 'a2:M'):
+                vs.add(('includer', None))
+            else:
+                vs.add(('?', 'records %r' % (v,)))
+    for sit in (('include', 'local'), ('include', 'searched'), ('include_next', 'searched')):
+        key, descr = SIT[sit]
+        vs = verdicts.get(sit, set())
+        where = '%s:%d' % (U, lines.get(sit, u.fn('preprocess2').line))
+        bad = sorted((x for x in vs if x[0] in ('stale', 'const', 'other-search', 'includer')), key=repr)
+        if not vs or (not bad and any(x[0] == '?' for x in vs)):
+            rep.undecided('R10.7', '%s:preprocess2:%s-records-its-search-position' % (U, key),
+                          'what include_file records for %s could not be followed: %s' % (descr, sorted(x[1] for x in vs if x[0] == '?') or 'no such path'), where=where)
+            continue
+        if not bad:
+            rep.ob('R10.7', '%s:preprocess2:%s-records-its-search-position' % (U, key), True, '', where=where)
+            continue
+        b = bad[0]
+        if b[0] == 'stale':
+            rep.ob('R10.7', '%s:preprocess2:%s-inherits-stale-cursor' % (U, key), False,
+                   'for %s include_file records %s in File.%s, and at this call site that is the value some unrelated earlier lookup left behind%s: `#include_next` in that file '
+                   'starts at a directory that has nothing to do with where the file was found (a local wrapper header doing `#include_next <x.h>` after any `#include <...>` '
+                   'that was found in a later directory skips the first -I directories)' % (
+                       descr, what, field, ' (expected: 0, the whole include path)' if sit[1] == 'local' else ' (expected: the cursor of the search that found it)'), where=where)
+        elif b[0] == 'const':
+            rep.ob('R10.7', '%s:preprocess2:%s-records-constant-%s' % (U, key, b[1]), False,
+                   'for %s include_file records the constant %s in File.%s%s' % (
+                       descr, b[1], field, ': `#include_next` in a header found in directory i searches from directory %s again instead of from i + 1 (it finds itself, or a copy '
+                       'that should have been shadowed)' % b[1] if sit[1] == 'searched' else ': `#include_next` in a file that was not found through the include path must search the whole path (from 0)'),
+                   where=where)
+        elif b[0] == 'includer':
+            rep.ob('R10.7', '%s:preprocess2:%s-records-position-of-the-including-file' % (U, key), False,
+                   'for %s include_file records in File.%s the search position of the file the directive stands in (where the search started), not the cursor the search '
+                   'left behind the directory in which it found the file: the found file lies at or behind that position, so its own `#include_next` finds it again (or a copy '
+                   'that should have been passed)' % (descr, field), where=where)
+        else:
+            rep.ob('R10.7', '%s:preprocess2:%s-records-cursor-of-another-search' % (U, key), False,
+                   'for %s include_file records in File.%s the cursor of a different search than the one that found the file' % (descr, field), where=where)
 
 
 def r107_probe_predicate(P, rep):
@@ -2100,6 +2277,8 @@ def r108(P, u, T, rep, dres):
                     arg = src[2][0] if src and src[1] == 'strdup' and src[2] else (dn[2][0] if dn and dn[2] else None)
                     if isinstance(arg, Sym) and arg.name.endswith('.file.name') and arg.name.startswith('a'):
                         local = pr
+            if local is not None and truth_in(it, ctx, local[2][0]) is False:
+                continue        # the path assumes that the string built by format() is NULL
             absolute = any("filename[0] != 47" in t and t.startswith('!') for t in ctx.trail) or any("filename[0] == 47" in t and not t.startswith('!') for t in ctx.trail)
             if dq == [0, 1] and not absolute:
                 # the arm does not distinguish the two forms: judge it as both
@@ -2273,20 +2452,37 @@ def _r108_once(P, u, T, rep):
     if not keys:
         rep.undecided('R10.8', '%s:preprocess2:pragma-once/arm' % U, 'the `#pragma once` arm records nothing the analysis can see')
         return
-    ok_key = all(isinstance(k, Sym) and k.name.endswith('.file.name') and k.name[0] == 'a' for k in keys)
+    kfs = set(key_base(k)[0] for k in keys)
+    ok_key = all(isinstance(key_base(k)[1], Sym) and key_base(k)[1].name.endswith('.file.name') and key_base(k)[1].name[0] == 'a' for k in keys) and len(kfs) == 1
     rep.ob('R10.8', '%s:preprocess2:pragma-once/keyed-by-file-name' % U, ok_key,
            '`#pragma once` is not recorded under the name of the file the directive stands in (recorded: %r)' % (keys,), where='%s:%d' % (U, u.fn('preprocess2').line))
-    # include_file: lookup in that table with key `path`
-    looked = False
-    for c in u.fn('include_file').calls(('hashmap_get', 'hashmap_get2')):
-        a = c.args()
-        if a and a[0].src() in tabs and len(a) > 1:
-            pr = a[1].strip()
-            params = u.params('include_file')
-            if pr.kind == 'DeclRefExpr' and len(params) > 1 and pr.ref_id == params[1].id:
-                looked = True
+    # include_file: lookup in that table with the key of `path` -- the path itself or the same file-key function of it that the directive records
+    p3 = u.params('include_file')
+    a3 = [Obj('Token', lazy=True, label=p.name) if (p.type or '').startswith('Token') else Sym('p:' + p.name, p.type) for p in p3]
+    it3 = PPInterp(P, u, {'cut': {'hashmap_put': _h_map('hashmap_put', None), 'tokenize_file': None, 'detect_include_guard': None, 'append': None,
+                                  'strerror': None, '__errno_location': None}, 'lazy_field': hook, 'loop_limit': 2})
+    lk = set()
+    for ctx, out in it3.explore('include_file', lambda ctx: list(a3), max_paths=200):
+        for e in calls(ctx, TABLE_LOOKUPS):
+            if len(e) > 5 and e[5] in tabs and len(e[2]) > 1:
+                kf, base = key_base(e[2][1])
+                lk.add((kf, 'path' if len(a3) > 1 and base is a3[1] else 'other'))
+    looked = bool(lk) and all(x[1] == 'path' for x in lk)
     rep.ob('R10.8', '%s:include_file:pragma-once/looked-up-by-path' % U, looked,
            'include_file does not look its path argument up in the `#pragma once` table', where=where)
+    if looked and ok_key:
+        same = set(x[0] for x in lk) == kfs
+        rep.ob('R10.8', '%s:include_file:pragma-once/%s' % (U, 'lookup-key-is-recorded-key' if same else 'lookup-key-differs-from-recorded-key'), same,
+               'the `#pragma once` arm records the file under %s, include_file looks it up under %s: the entry is never found and the file is included again' % (
+                   ' / '.join('%s(file name)' % k if k else 'its name' for k in sorted(kfs, key=repr)), ' / '.join('%s(path)' % k if k else 'the path' for k in sorted((x[0] for x in lk), key=repr))), where=where)
+        # one FILE, one key: the compiler itself spells a file in several ways (cc1 reads a -include file under the name given on the command line, `a.h`; the
+        # dispatcher builds dirname(includer) + "/" + name, `./a.h`; a search yields dir + "/" + name; `d/../a.h` ...).  A table keyed by the spelling misses.
+        ident = same and None not in kfs
+        rep.ob('R10.8', '%s:include_file:pragma-once/%s' % (U, 'keyed-by-file-identity' if ident else 'keyed-by-spelling'), ident,
+               'the `#pragma once` table is keyed by the path string as spelled by whichever lookup produced it, not by the file it denotes: the same file reached under two '
+               'spellings is included twice although it says `#pragma once` (`-include a.h` records `a.h`, `#include "a.h"` in main.c looks up `./a.h`; likewise `sub/../a.h`); '
+               'gcc identifies the file. Expected: the key is computed from the path by a function that asks the file system (stat identity / realpath), both where '
+               'it is recorded and where it is looked up', where=where)
     # tokenize_file(path) names the file `path`
     tu, tf = P.find_function('tokenize_file')
     nu, nf = P.find_function('new_file')
@@ -2410,19 +2606,111 @@ def _r108_cc1_lookup(it, res, rep, where):
         rep.ob('R10.8', K + k, f is None, f[0] if f else '', where=where, facts={'path': f[1]} if f else None)
 
 
+def _r107_cc1_cursor(P, it, res, rep, where, info):
+    """a -include file that cc1 takes from the include path was found by a directory search like any #include <...>: `#include_next` in it must resume
+    behind the directory it was found in, so the File of its tokens must carry the cursor that search left (what include_file does for the dispatcher,
+    r107_per_file); one that is taken as given was not found through the include path: 0."""
+    if not info or not info.get('field'):
+        return      # the per-file cursor design itself is not established (reported by r107_per_file)
+    field = info['field']
+    K = 'main.c:cc1:include-option/'
+    verd = {'searched': set(), 'as-given': set()}
+    for ctx, out in res:
+        o = outcome(out)
+        if o[0] != 'resume':
+            continue
+        cursors = getattr(ctx, 'cursors', [])
+        for e in calls(ctx, 'must_tokenize_file'):
+            a = settle(it, e[2][0]) if e[2] else None
+            if isinstance(a, Sym) and a.name == 'base_file':
+                continue
+            f = e[4].fields.get('file') if isinstance(e[4], Obj) else None
+            f = settle(it, f)
+            v = settle(it, f.fields.get(field)) if isinstance(f, Obj) else None
+            sr = _ev_result(ctx, a)
+            if sr is not None and sr[1] == 'search_include_paths':
+                want = [c for ev, c in cursors if ev is sr]
+                vs = verd['searched']
+                if v is None:
+                    vs.add('unset')
+                elif want and (v is want[0] or _lin_diff(v, want[0]) == 0):
+                    vs.add('ok')
+                elif isinstance(v, int) and not isinstance(v, bool):
+                    vs.add('const:%d' % v)
+                elif v is info.get('stale'):
+                    vs.add('stale')
+                elif any(v is c for ev, c in cursors):
+                    vs.add('other-search')
+                else:
+                    vs.add('?%r' % (v,))
+            else:
+                vs = verd['as-given']
+                if v is None or (isinstance(v, int) and not isinstance(v, bool) and v == 0):
+                    vs.add('ok')        # File objects are calloc-ed: 0
+                elif v is info.get('stale'):
+                    vs.add('stale')
+                else:
+                    vs.add('?%r' % (v,))
+    vs = verd['searched']
+    if not vs or (any(x.startswith('?') for x in vs) and not (vs & {'unset', 'stale', 'other-search'}) and not any(x.startswith('const') for x in vs)):
+        rep.undecided('R10.7', K + 'file-from-include-path-records-its-search-position',
+                      'what cc1 records in File.%s of a -include file found on the include path could not be followed (%s)' % (field, sorted(vs) or 'no such path'), where=where)
+    else:
+        ok = vs == {'ok'}
+        badk = 'ok' if ok else ([x for x in ('unset', 'stale', 'other-search') if x in vs] + sorted(x for x in vs if x.startswith('const')) + sorted(x for x in vs if x != 'ok'))[0]
+        rep.ob('R10.7', K + ('file-from-include-path-records-its-search-position' if ok else
+                             'file-from-include-path-' + ('does-not-record-its-search-position' if badk == 'unset' else 'inherits-stale-cursor' if badk == 'stale' else
+                                                          'records-cursor-of-another-search' if badk == 'other-search' else 'records-constant' if badk.startswith('const') else 'records-something-else')), ok,
+               'a -include file that cc1 finds with search_include_paths is tokenised %s File.%s: `#include_next` in that file does not resume behind the directory it was '
+               'found in (`-Id1 -Id2 -include w.h`, d1/w.h: `#include_next <w.h>` searches from directory 0 and includes d1/w.h itself a second time; gcc continues with d2/w.h). '
+               'Expected: the cursor left by that search, as include_file records it for #include' % (
+                   'without storing anything in' if badk == 'unset' else 'with %s in' % {'stale': 'the cursor an unrelated earlier lookup left', 'other-search': 'the cursor of a different search'}.get(badk, badk), field), where=where)
+    va = verd['as-given']
+    if va and va != {'ok'}:
+        if 'stale' in va:
+            rep.ob('R10.7', K + 'file-as-given-inherits-stale-cursor', False,
+                   'a -include file taken as given (not found through the include path) gets the cursor some earlier search left in File.%s: its #include_next must search the whole include path' % field, where=where)
+        else:
+            rep.undecided('R10.7', K + 'file-as-given-searches-whole-path', 'what cc1 records in File.%s of a -include file taken as given could not be followed (%s)' % (field, sorted(va)), where=where)
+    elif va:
+        rep.ob('R10.7', K + 'file-as-given-searches-whole-path', True, '', where=where)
+
+
 def _r108_cc1(P, rep):
     mu = P.unit('main.c')
     if 'cc1' not in mu.functions:
         raise AnalysisBroken('anchor cc1 vanished from main.c')
     where = 'main.c:%d' % mu.fn('cc1').line
 
+    def seq_of(v):
+        """the files whose token lists make up list value v, front to back: [must_tokenize_file event]; None = not a list the analysis built"""
+        if isinstance(v, View):
+            return None
+        if isinstance(v, int) and v == 0:
+            return []
+        if isinstance(v, Obj) and 'seq' in v.meta:
+            return v.meta['seq']
+        return None
+
     def h_tok(it, ctx, n, args):
         r = Obj('Token', lazy=True, label=ctx.fresh('tokens'))
+        f = Obj('File', lazy=True, label=ctx.fresh('file'))
+        r.fields['file'] = f
         ctx.emit('call', 'must_tokenize_file', args, n.line, r, None)
+        r.meta['seq'] = [ctx.events[-1]]
         return r
 
     def h_app(it, ctx, n, args):
+        # append_tokens(a, b) is the list a followed by the list b (that it is: R10.10); a is consumed (its last token is relinked)
         r = Obj('Token', lazy=True, label=ctx.fresh('joined'))
+        a = [settle(it, x) for x in args[:2]]
+        sq = [seq_of(x) for x in a]
+        used = getattr(ctx, 'consumed', None)
+        if used is None:
+            used = ctx.consumed = []
+        if len(sq) == 2 and None not in sq and not any(x is y for x in a for y in used if isinstance(x, Obj)) and not (isinstance(a[0], Obj) and a[0] is a[1]):
+            r.meta['seq'] = sq[0] + sq[1]
+        used.extend(x for x in a if isinstance(x, Obj))
         ctx.emit('call', 'append_tokens', args, n.line, r, None)
         return r
 
@@ -2430,51 +2718,85 @@ def _r108_cc1(P, rep):
         ctx.emit('call', 'preprocess', args, n.line, None, None)
         raise NoReturn(RESUME, [args[0] if args else None], n.line)
     gl = {'opt_include': lambda ctx: Obj('StringArray', lazy=True, label='opt_include'), 'base_file': lambda ctx: Sym('base_file', 'char *')}
-    it = PPInterp(P, mu, {'cut': {'must_tokenize_file': h_tok, 'append_tokens': h_app, 'preprocess': h_pp, 'file_exists': None, 'search_include_paths': None,
+    info = dict(getattr(rep, '_c10_cursor', None) or {})
+    G = info.get('global')
+    if G:
+        info['stale'] = Sym('cursor-left-by-an-earlier-lookup:' + G, 'int')
+        gl[G] = info['stale']
+
+    def h_search(it, ctx, n, args):
+        # like the generic cut, and: a search leaves its cursor in the global (that it is i + 1: _r107_cursor)
+        t = n.dtype or n.type
+        r = it.lazy_value(t, ctx.fresh('search_include_paths'))
+        ctx.emit('call', 'search_include_paths', args, n.line, r)
+        if G:
+            if not hasattr(ctx, 'cursors'):
+                ctx.cursors = []
+            c = Sym(ctx.fresh('cursor-after-search_include_paths'), 'int')
+            ctx.cursors.append((ctx.events[-1], c))
+            ctx.globals[G] = c
+        return r
+    it = PPInterp(P, mu, {'cut': {'must_tokenize_file': h_tok, 'append_tokens': h_app, 'preprocess': h_pp, 'file_exists': None, 'search_include_paths': h_search,
                                   'strerror': None, '__errno_location': None}, 'globals': gl, 'loop_limit': 2})
     bad = None
+    bad_order = None
+    unknown = None
     nmax = 0
     count = {}
     res = it.explore('cc1', lambda ctx: [], max_paths=300)
     _r108_cc1_lookup(it, res, rep, where)
+    _r107_cc1_cursor(P, it, res, rep, where, info)
     for ctx, out in res:
         o = outcome(out)
         if o[0] != 'resume':
             continue
         toks = calls(ctx, 'must_tokenize_file')
-        apps = calls(ctx, 'append_tokens')
         if not toks:
             bad = bad or 'the input is preprocessed without having been tokenised'
             continue
-        base = toks[-1]
-        if not (base[2] and isinstance(base[2][0], Sym) and base[2][0].name == 'base_file'):
-            bad = bad or 'the main file is not the last file tokenised before preprocessing: -include files must come in front of it'
-            continue
-        incs = toks[:-1]
-        nmax = max(nmax, len(incs))
-        # -include files in option order: opt_include.data[0], [1], ...
-        idxs = []
-        for k, e in enumerate(incs):
+
+        def is_base(e):
+            return bool(e[2]) and isinstance(e[2][0], Sym) and e[2][0].name == 'base_file'
+
+        def opt_index(e):
+            # -include files: opt_include.data[i], as given or as found by search_include_paths
             a = settle(it, e[2][0]) if e[2] else None
             src = a
             sr = _ev_result(ctx, a)
             if sr is not None and sr[1] == 'search_include_paths' and sr[2]:
                 src = sr[2][0]
-            i = src.args[1] if isinstance(src, Term) and src.op == 'idx' and len(src.args) == 2 else None
-            idxs.append(i)
-        if idxs != list(range(len(incs))):
-            bad = bad or 'the -include files are not tokenised in command-line order (%r)' % (idxs,)
-        # fold: acc = append_tokens(acc, t) for every file in order
-        acc = 0
-        okf = len(apps) == len(toks)
-        for e, t in zip(apps, toks):
-            a0 = settle(it, e[2][0]) if len(e[2]) > 0 else None
-            a1 = settle(it, e[2][1]) if len(e[2]) > 1 else None
-            if not ((a0 is acc or (isinstance(a0, int) and isinstance(acc, int) and a0 == acc)) and a1 is t[4]):
-                okf = False
-            acc = e[4]
-        if not okf or o[1] is not acc:
-            bad = bad or 'the token lists are not joined front to back in the order -include files, main file before preprocessing'
+            return src.args[1] if isinstance(src, Term) and src.op == 'idx' and len(src.args) == 2 and 'opt_include' in repr(src.args[0]) else None
+        incs = [e for e in toks if not is_base(e)]
+        nmax = max(nmax, len(incs))
+        # what is preprocessed: the files in the order in which their tokens stand in the list handed to preprocess() -- whatever the order in which
+        # they were read and joined
+        final = seq_of(settle(it, o[1]))
+        if final is None:
+            unknown = unknown or 'the token list handed to preprocess() is not one the analysis saw being built from must_tokenize_file/append_tokens results'
+            continue
+        if any(not any(e is f for f in final) for e in toks):
+            bad = bad or ('a file that was tokenised (%s) is not part of the token list that is preprocessed' % ', '.join(
+                'the main file' if is_base(e) else 'a -include file' for e in toks if not any(e is f for f in final)))
+            continue
+        if len(final) != len(toks):
+            bad = bad or 'the token list that is preprocessed contains the tokens of a file more than once'
+            continue
+        nb = [k for k, e in enumerate(final) if is_base(e)]
+        if len(nb) != 1:
+            bad = bad or 'the main file is not tokenised exactly once'
+            continue
+        if nb[0] != len(final) - 1:
+            bad = bad or ('the tokens of the main file do not stand behind those of every -include file in the list that is preprocessed (position %d of %d): '
+                          '-include files must come in front of it' % (nb[0] + 1, len(final)))
+            continue
+        idxs = [opt_index(e) for e in final[:-1]]
+        if any(i is None or not isinstance(i, int) for i in idxs):
+            unknown = unknown or 'which -include option a tokenised file belongs to could not be told (%r)' % (idxs,)
+            continue
+        if idxs != list(range(len(idxs))):
+            bad_order = bad_order or ('with %d -include options the token list that is preprocessed holds the files of options number %s in that order, then the main file: '
+                                      'the text is not that of `#include "a.h"` / `#include "b.h"` at the top of the main file (a later file that tests or redefines '
+                                      'what an earlier one defines sees the wrong state)' % (len(idxs), ', '.join(str(i + 1) for i in idxs)), ctx.trail)
         # all of them: on a path that read k files the option list cannot be longer than k
         g = ctx.globals.get('opt_include')
         ln = g.fields.get('len') if isinstance(g, Obj) else None
@@ -2498,14 +2820,25 @@ def _r108_cc1(P, rep):
                                                     'translation unit' % (hi if hi is not None and hi < 1000 else 'more', len(incs)), ctx.trail)
             else:
                 count['unknown'] = count.get('unknown') or 'whether the loop over the -include options ends at the last one could not be told on a path reading %d file(s)' % len(incs)
-    if nmax == 0:
+    if nmax == 0 and bad is None:
         rep.undecided('R10.8', 'main.c:cc1:include-option', 'no path of cc1 with a -include file could be followed')
         return
-    rep.ob('R10.8', 'main.c:cc1:include-files-before-main-file', bad is None, bad or '', where=where)
+    if bad is None and unknown is not None:
+        rep.undecided('R10.8', 'main.c:cc1:include-files-before-main-file', unknown, where=where)
+    else:
+        rep.ob('R10.8', 'main.c:cc1:include-files-before-main-file', bad is None, bad or '', where=where)
+    if bad_order is not None:
+        rep.ob('R10.8', 'main.c:cc1:include-files-out-of-option-order', False, bad_order[0], where=where, facts={'path': bad_order[1]})
+    elif nmax < 2 or unknown is not None or bad is not None:
+        if bad is None:
+            rep.undecided('R10.8', 'main.c:cc1:include-files-in-option-order', unknown or 'no path of cc1 with two -include files could be followed', where=where)
+    else:
+        rep.ob('R10.8', 'main.c:cc1:include-files-in-option-order', True, '', where=where)
     if count.get('bad'):
         rep.ob('R10.8', 'main.c:cc1:include-option-dropped', False, count['bad'][0], where=where, facts={'path': count['bad'][1]})
     elif count.get('unknown') or not count.get('ok'):
-        rep.undecided('R10.8', 'main.c:cc1:every-include-option-read', count.get('unknown') or 'no path of cc1 reaches the preprocessor', where=where)
+        if bad is None:
+            rep.undecided('R10.8', 'main.c:cc1:every-include-option-read', count.get('unknown') or 'no path of cc1 reaches the preprocessor', where=where)
     else:
         rep.ob('R10.8', 'main.c:cc1:every-include-option-read', True, '', where=where)
     # does the fold start from "no list yet" (NULL)?  Then the joiner must accept that as well
